@@ -57,9 +57,22 @@ SCAN_ENS = [
               'self->ruleInfosToScan.ptr[self->ruleInfosToScan.len - 1].ruleInfo == ruleInfo && self->ruleInfosToScan.ptr[self->ruleInfosToScan.len - 1].inputIndex == 0 && '
               'self->ruleInfosToScan.ptr[self->ruleInfosToScan.len - 1].inputRuleInfo == 0 && ruleInfo->result.dependencies.items.len != 0)' % (S, S)),
     ('P:C01', 'ruleInfo->state == OLD(ruleInfo->state) || ruleInfo->state == %sNeedsToRun || ruleInfo->state == %sDoesNotNeedToRun || ruleInfo->state == %sIsScanning' % (S, S, S)),
+    'self->ruleInfosToScan.len == OLD(self->ruleInfosToScan.len) || self->ruleInfosToScan.len == OLD(self->ruleInfosToScan.len) + 1',
+    'ruleInfo->result.dependencies.items.len <= OLD(ruleInfo->result.dependencies.items.len)',
+    'ruleInfo->state == OLD(ruleInfo->state) ==> (ruleInfo->inProgressInfo.pendingScanRecord == OLD(ruleInfo->inProgressInfo.pendingScanRecord) && self->ruleInfosToScan.len == OLD(self->ruleInfosToScan.len) && '
+    'ruleInfo->result.dependencies.items.len == OLD(ruleInfo->result.dependencies.items.len))',
+    # the answer "scanned" means exactly that; "not yet" means the rule is being scanned
+    '(RESULT != 0) ? %s : (ruleInfo->state == %sIsScanning)' % (SCANNED, S),
+    # a newly queued scan owns a fresh, empty scan record
+    '(ruleInfo->state == %sIsScanning && OLD(ruleInfo->state) != %sIsScanning) ==> (__CPROVER_is_fresh(ruleInfo->inProgressInfo.pendingScanRecord, sizeof(struct BuildEngineImpl_RuleScanRecord)) && '
+    'VEC_OK(ruleInfo->inProgressInfo.pendingScanRecord->deferredScanRequests, struct BuildEngineImpl_RuleScanRequest) && ruleInfo->inProgressInfo.pendingScanRecord->deferredScanRequests.len == 0 && '
+    'ruleInfo->inProgressInfo.pendingScanRecord->deferredScanRequests.cap >= 1)' % (S, S),
 ]
 
 DEMAND_ENS = [
+    # the new task record is fresh and can park scan requests (first: later clauses read through it)
+    'OLD(ruleInfo->state) == %sNeedsToRun ==> (__CPROVER_is_fresh(g_new_taskinfo, sizeof(struct BuildEngineImpl_TaskInfo)) && '
+    'VEC_OK(g_new_taskinfo->deferredScanRequests, struct BuildEngineImpl_RuleScanRequest) && g_new_taskinfo->deferredScanRequests.len == 0 && g_new_taskinfo->deferredScanRequests.cap >= 1)' % S,
     ('P:C02', '(OLD(ruleInfo->state) == %sComplete || OLD(ruleInfo->state) == %sInProgressWaiting || OLD(ruleInfo->state) == %sInProgressComputing) ==> '
               '(ruleInfo->state == OLD(ruleInfo->state) && g_created == OLD(g_created) && ruleInfo->result.builtAt == OLD(ruleInfo->result.builtAt) && (RESULT != 0) == (OLD(ruleInfo->state) == %sComplete))' % (S, S, S, S)),
     # an up-to-date rule is completed without a task; builtAt is stamped, value / computedAt / dependencies are kept (frame)
@@ -68,15 +81,96 @@ DEMAND_ENS = [
     # a rule that needs to run gets exactly one task, waits, and its recorded dependencies start empty
     ('P:C01,P:C02,P:C06', 'OLD(ruleInfo->state) == %sNeedsToRun ==> (RESULT == 0 && ruleInfo->state == %sInProgressWaiting && g_created == OLD(g_created) + 1 && '
                           'ruleInfo->result.dependencies.items.len == 0 && ruleInfo->result.builtAt == OLD(ruleInfo->result.builtAt) && g_new_taskinfo->forRuleInfo == ruleInfo && '
-                          'ruleInfo->inProgressInfo.pendingTaskInfo == g_new_taskinfo && g_new_taskinfo->task->g_tstate >= 1)' % (S, S)),
-    # the prior value is offered exactly when one exists for the same rule definition
-    ('P:C06,P:C09', 'OLD(ruleInfo->state) == %sNeedsToRun ==> ((g_new_taskinfo->task->g_tstate == 2) == (ruleInfo->result.builtAt != 0 && ruleInfo->rule->signature.value == ruleInfo->result.signature.value))' % S),
+                          'ruleInfo->inProgressInfo.pendingTaskInfo == g_new_taskinfo)' % (S, S)),
     # a task without outstanding requests is queued as ready exactly once
     ('P:C06', 'OLD(ruleInfo->state) == %sNeedsToRun ==> ((g_new_taskinfo->waitCount == 0) ? (self->readyTaskInfos.len == OLD(self->readyTaskInfos.len) + 1 && self->readyTaskInfos.ptr[self->readyTaskInfos.len - 1] == g_new_taskinfo) '
               ': self->readyTaskInfos.len == OLD(self->readyTaskInfos.len))' % S),
     ('P:C06', '!self->taskInfosMutex.held'),
     ('P:C01', 'OLD(ruleInfo->state) != %sNeedsToRun ==> (g_created == OLD(g_created) && self->readyTaskInfos.len == OLD(self->readyTaskInfos.len))' % S),
+    '(RESULT != 0) == (ruleInfo->state == %sComplete && ruleInfo->result.builtAt == self->currentEpoch)' % S,
+    'RESULT == 0 ==> (ruleInfo->state == %sInProgressWaiting || ruleInfo->state == %sInProgressComputing)' % (S, S),
+    'OLD(ruleInfo->state) != %sNeedsToRun ==> ruleInfo->inProgressInfo.pendingTaskInfo == OLD(ruleInfo->inProgressInfo.pendingTaskInfo)' % S,
+    'ruleInfo->result.dependencies.items.len <= OLD(ruleInfo->result.dependencies.items.len)',
 ]
+
+_SCANREQ_LAST = {
+            # the scan step for the LAST recorded dependency (deps.len == inputIndex + 1): the do-while body runs once, so
+            # the decision depends on this dependency alone; by arbitrariness of inputIndex this is the step for every index
+            'of': 'BuildEngineImpl::processRuleScanRequest', 'cname': 'BuildEngineImpl_processRuleScanRequest_last',
+            'unwindset': {'BuildEngineImpl_processRuleScanRequest_last_wrapped_for_contract_checking.0': 2}, 'no_loop_contracts': True,
+            'requires': ENG + SCANQ + READYQ + rule_ok('g_ri_a') + rule_ok('g_ri_b') + [
+                'VEC_OK(self->inputRequests, struct BuildEngineImpl_TaskInputRequest)',
+                'request.ruleInfo == g_ri_a && g_ri_a->state == %sIsScanning' % S,
+                '__CPROVER_is_fresh(g_ri_a->inProgressInfo.pendingScanRecord, sizeof(struct BuildEngineImpl_RuleScanRecord))',
+                'VEC_OK(g_ri_a->inProgressInfo.pendingScanRecord->deferredScanRequests, struct BuildEngineImpl_RuleScanRequest) && g_ri_a->inProgressInfo.pendingScanRecord->deferredScanRequests.len < g_ri_a->inProgressInfo.pendingScanRecord->deferredScanRequests.cap',
+                'VEC_OK(g_ri_a->inProgressInfo.pendingScanRecord->pausedInputRequests, struct BuildEngineImpl_TaskInputRequest)',
+                'g_ri_a->result.dependencies.items.len >= 1 && (size_t)request.inputIndex + 1 == g_ri_a->result.dependencies.items.len',
+                'request.inputRuleInfo == 0 || (request.inputRuleInfo == (g_ri_a->result.dependencies.items.ptr[request.inputIndex].keyID._value == g_key_a ? g_ri_a : g_ri_b) && request.orderOnly == g_ri_a->result.dependencies.items.ptr[request.inputIndex].orderOnly)',
+                '(g_ri_b->state == %sIsScanning) ==> (__CPROVER_is_fresh(g_ri_b->inProgressInfo.pendingScanRecord, sizeof(struct BuildEngineImpl_RuleScanRecord)) && '
+                'VEC_OK(g_ri_b->inProgressInfo.pendingScanRecord->deferredScanRequests, struct BuildEngineImpl_RuleScanRequest) && g_ri_b->inProgressInfo.pendingScanRecord->deferredScanRequests.len < g_ri_b->inProgressInfo.pendingScanRecord->deferredScanRequests.cap)' % S,
+                '(g_ri_b->state == %sInProgressWaiting || g_ri_b->state == %sInProgressComputing) ==> (__CPROVER_is_fresh(g_ri_b->inProgressInfo.pendingTaskInfo, sizeof(struct BuildEngineImpl_TaskInfo)) && '
+                'VEC_OK(g_ri_b->inProgressInfo.pendingTaskInfo->deferredScanRequests, struct BuildEngineImpl_RuleScanRequest) && g_ri_b->inProgressInfo.pendingTaskInfo->deferredScanRequests.len < g_ri_b->inProgressInfo.pendingTaskInfo->deferredScanRequests.cap)' % (S, S),
+                'self->ruleInfosToScan.cap - self->ruleInfosToScan.len >= 1 + g_ri_a->inProgressInfo.pendingScanRecord->deferredScanRequests.len',
+                'self->readyTaskInfos.len < self->readyTaskInfos.cap',
+                'self->inputRequests.cap - self->inputRequests.len >= g_ri_a->inProgressInfo.pendingScanRecord->pausedInputRequests.len',
+                '!self->taskInfosMutex.held && !self->inputRequestsMutex.held', 'g_k < g_ri_a->inProgressInfo.pendingScanRecord->deferredScanRequests.len'],
+            'assigns': ['g_ri_a->state', 'g_ri_a->inProgressInfo', 'g_ri_b->state', 'g_ri_b->wasForced', 'g_ri_b->inProgressInfo', 'g_ri_b->result.dependencies.items.len',
+                        'g_ri_b->result.builtAt', 'g_ri_b->result.end', 'g_ri_a->wasForced', 'g_ri_a->result.dependencies.items.len',
+                        'self->ruleInfosToScan.len', '__CPROVER_object_whole(self->ruleInfosToScan.ptr)', 'self->readyTaskInfos.len', '__CPROVER_object_whole(self->readyTaskInfos.ptr)',
+                        'self->inputRequests.len', '__CPROVER_object_whole(self->inputRequests.ptr)', 'self->taskInfosMutex.held', 'self->inputRequestsMutex.held',
+                        'g_ri_a->inProgressInfo.pendingScanRecord->deferredScanRequests.len', '__CPROVER_object_whole(g_ri_a->inProgressInfo.pendingScanRecord->deferredScanRequests.ptr)',
+                        ('g_ri_b->state == %sIsScanning' % S, 'g_ri_b->inProgressInfo.pendingScanRecord->deferredScanRequests.len'),
+                        ('g_ri_b->state == %sIsScanning' % S, '__CPROVER_object_whole(g_ri_b->inProgressInfo.pendingScanRecord->deferredScanRequests.ptr)'),
+                        ('(g_ri_b->state == %sInProgressWaiting || g_ri_b->state == %sInProgressComputing)' % (S, S), 'g_ri_b->inProgressInfo.pendingTaskInfo->deferredScanRequests.len'),
+                        ('(g_ri_b->state == %sInProgressWaiting || g_ri_b->state == %sInProgressComputing)' % (S, S), '__CPROVER_object_whole(g_ri_b->inProgressInfo.pendingTaskInfo->deferredScanRequests.ptr)'),
+                        'g_reports', 'g_reason', 'g_report_rule', 'g_report_input', 'g_created', 'g_new_taskinfo'],
+            'ensures': [
+                # an order-only dependency never makes the rule run
+                ('P:C02', 'g_ri_a->result.dependencies.items.ptr[request.inputIndex].orderOnly ==> g_ri_a->state != %sNeedsToRun' % S),
+                # the rule runs because of this dependency only if the dependency was recomputed after the rule was last built (strictly), and says so
+                ('P:C01,P:C02', 'g_ri_a->state == %sNeedsToRun ==> (!g_ri_a->result.dependencies.items.ptr[request.inputIndex].orderOnly && g_ri_a->result.builtAt < (g_ri_a->result.dependencies.items.ptr[request.inputIndex].keyID._value == g_key_a ? g_ri_a : g_ri_b)->result.computedAt && g_reason == %sInputRebuilt && g_report_rule == g_ri_a->rule && g_report_input == (g_ri_a->result.dependencies.items.ptr[request.inputIndex].keyID._value == g_key_a ? g_ri_a : g_ri_b)->rule)' % (S, RR)),
+                # the rule is declared up to date only after the dependency has been brought up to date in this epoch, and is not newer
+                ('P:C01,P:C02', 'g_ri_a->state == %sDoesNotNeedToRun ==> ((g_ri_a->result.dependencies.items.ptr[request.inputIndex].keyID._value == g_key_a ? g_ri_a : g_ri_b)->state == %sComplete && (g_ri_a->result.dependencies.items.ptr[request.inputIndex].keyID._value == g_key_a ? g_ri_a : g_ri_b)->result.builtAt == self->currentEpoch && (g_ri_a->result.dependencies.items.ptr[request.inputIndex].orderOnly || g_ri_a->result.builtAt >= (g_ri_a->result.dependencies.items.ptr[request.inputIndex].keyID._value == g_key_a ? g_ri_a : g_ri_b)->result.computedAt))' % (S, S)),
+                ('P:C01', 'g_ri_a->state == %sIsScanning || g_ri_a->state == %sNeedsToRun || g_ri_a->state == %sDoesNotNeedToRun' % (S, S, S)),
+                # the scanned rule's own epochs are never touched by a scan
+                ('P:C01', '(g_ri_a->result.dependencies.items.ptr[request.inputIndex].keyID._value == g_key_a ? g_ri_a : g_ri_b) != g_ri_a ==> g_ri_a->result.builtAt == OLD(g_ri_a->result.builtAt)'),
+                ('P:C06', '!self->taskInfosMutex.held && !self->inputRequestsMutex.held'),
+            ],
+        }
+
+
+def scanreq_variant(tag, bstate_req, bassigns):
+    import copy
+    d = copy.deepcopy(_SCANREQ_LAST)
+    d['cname'] = 'BuildEngineImpl_processRuleScanRequest_' + tag
+    d['unwindset'] = {'BuildEngineImpl_processRuleScanRequest_' + tag + '_wrapped_for_contract_checking.0': 2}
+    d['requires'] = [r for r in d['requires'] if not r.startswith('(g_ri_b->state ==')] + bstate_req
+    d['assigns'] = [x for x in d['assigns'] if not isinstance(x, tuple)] + bassigns
+    # NOT CLOSED at this commit for the idle / in-progress starting states of the other rule: parking the request on a task
+    # record reached through a pointer that a replaced callee left untouched trips cbmc's value-set dereferencing
+    # (see DESIGN.md section 2); those two variants are translated but not run, and nothing is claimed from them
+    d['prove'] = (tag == 'last_scanning')
+    return d
+
+
+_BSCAN = 'g_ri_b->inProgressInfo.pendingScanRecord'
+_BTASK = 'g_ri_b->inProgressInfo.pendingTaskInfo'
+_RSR = 'struct BuildEngineImpl_RuleScanRequest'
+SCANREQ_VARIANTS = {
+    # the other rule (b) is idle / already being scanned / has a task in progress when the step starts
+    'BuildEngineImpl::processRuleScanRequest#last_idle': scanreq_variant(
+        'last_idle', ['g_ri_b->state != ' + S + 'IsScanning && g_ri_b->state != ' + S + 'InProgressWaiting && g_ri_b->state != ' + S + 'InProgressComputing'], []),
+    'BuildEngineImpl::processRuleScanRequest#last_scanning': scanreq_variant(
+        'last_scanning',
+        ['g_ri_b->state == ' + S + 'IsScanning', '__CPROVER_is_fresh(' + _BSCAN + ', sizeof(struct BuildEngineImpl_RuleScanRecord))',
+         'VEC_OK(' + _BSCAN + '->deferredScanRequests, ' + _RSR + ') && ' + _BSCAN + '->deferredScanRequests.len < ' + _BSCAN + '->deferredScanRequests.cap'],
+        [_BSCAN + '->deferredScanRequests.len', '__CPROVER_object_whole(' + _BSCAN + '->deferredScanRequests.ptr)']),
+    'BuildEngineImpl::processRuleScanRequest#last_inprogress': scanreq_variant(
+        'last_inprogress',
+        ['g_ri_b->state == ' + S + 'InProgressWaiting || g_ri_b->state == ' + S + 'InProgressComputing', '__CPROVER_is_fresh(' + _BTASK + ', sizeof(struct BuildEngineImpl_TaskInfo))',
+         'VEC_OK(' + _BTASK + '->deferredScanRequests, ' + _RSR + ') && ' + _BTASK + '->deferredScanRequests.len < ' + _BTASK + '->deferredScanRequests.cap'],
+        [_BTASK + '->deferredScanRequests.len', '__CPROVER_object_whole(' + _BTASK + '->deferredScanRequests.ptr)']),
+}
 
 UNIT = {
     'name': 'engine',
@@ -122,8 +216,8 @@ UNIT = {
         'm:@vec_RuleScanRequest::push_back': ('vec_RuleScanRequest_push_back', 'v'),
         'm:@vec_TaskInfoPtr::push_back': ('vec_TaskInfoPtr_push_back', 'v'),
         'm:@vec_TaskInputRequest::push_back': ('vec_TaskInputRequest_push_back', 'v'),
-        'range:vec_RuleScanRequest': ('vec_RuleScanRequest_size', 'vec_RuleScanRequest_at'),
-        'range:vec_TaskInputRequest': ('vec_TaskInputRequest_size', 'vec_TaskInputRequest_at'),
+        'range:@vec_RuleScanRequest': ('vec_RuleScanRequest_size', 'vec_RuleScanRequest_at'),
+        'range:@vec_TaskInputRequest': ('vec_TaskInputRequest_size', 'vec_TaskInputRequest_at'),
         'm:@verif_mutex::lock': 'verif_mutex_lock', 'm:@verif_mutex::unlock': 'verif_mutex_unlock',
         'm:@verif_condvar::notify_one': 'verif_notify_one',
         'c:TaskInterface(void *, void *)': 'verif_ti_make',
@@ -167,9 +261,6 @@ UNIT = {
                          ('P:C06,P:C09', 'g_new_taskinfo->forRuleInfo->result.builtAt != 0 && g_new_taskinfo->forRuleInfo->rule->signature.value == g_new_taskinfo->forRuleInfo->result.signature.value'),
                          ('P:C06', 'value.ptr == g_new_taskinfo->forRuleInfo->result.value.ptr && value.len == g_new_taskinfo->forRuleInfo->result.value.len')],
             'assigns': ['self->g_tstate'], 'ensures': ['self->g_tstate == 2']},
-        'BuildEngineImpl_newRuleScanRecord': {
-            'ret': 'struct BuildEngineImpl_RuleScanRecord *', 'params': 'struct BuildEngineImpl *self',
-            'assigns': [], 'ensures': ['__CPROVER_is_fresh(RESULT, sizeof(struct BuildEngineImpl_RuleScanRecord))']},
         'BuildEngineImpl_freeRuleScanRecord': {'params': 'struct BuildEngineImpl *self, struct BuildEngineImpl_RuleScanRecord *r', 'assigns': []},
     },
     'functions': {
@@ -193,7 +284,9 @@ UNIT = {
             'ensures': [('P:C05', 'self->state == %sIncomplete' % S)], 'inline_in_callers': True},
         'BuildEngineImpl::scanRule': {
             'requires': ENG + rule_ok('ruleInfo') + SCANQ + ['self->ruleInfosToScan.len < self->ruleInfosToScan.cap'],
-            'assigns': ['ruleInfo->state', 'ruleInfo->wasForced', 'ruleInfo->inProgressInfo', 'ruleInfo->result.dependencies.items.len',
+            # the in-progress pointer is written only when a scan is started (conditional target: callers keep the pointer otherwise)
+            'assigns': ['ruleInfo->state', 'ruleInfo->wasForced', ('(ruleInfo->state == %sIncomplete || ruleInfo->state == %sComplete)' % (S, S), 'ruleInfo->inProgressInfo'),
+                        'ruleInfo->result.dependencies.items.len',
                         'self->ruleInfosToScan.len', '__CPROVER_object_whole(self->ruleInfosToScan.ptr)', 'g_reports', 'g_reason', 'g_report_rule', 'g_report_input'],
             'ensures': SCAN_ENS,
         },
@@ -201,11 +294,43 @@ UNIT = {
             'requires': ENG + rule_ok('ruleInfo') + READYQ + ['self->readyTaskInfos.len < self->readyTaskInfos.cap', '!self->taskInfosMutex.held',
                                                                # the rule has been scanned (asserted in the source; asserts are compiled out)
                                                                SCANNED],
-            'assigns': ['ruleInfo->state', 'ruleInfo->inProgressInfo', 'ruleInfo->result.builtAt', 'ruleInfo->result.end', 'ruleInfo->result.dependencies.items.len',
+            'assigns': ['ruleInfo->state', ('ruleInfo->state == %sNeedsToRun' % S, 'ruleInfo->inProgressInfo'), 'ruleInfo->result.builtAt', 'ruleInfo->result.end', 'ruleInfo->result.dependencies.items.len',
                         'self->readyTaskInfos.len', '__CPROVER_object_whole(self->readyTaskInfos.ptr)', 'self->taskInfosMutex.held',
                         'g_created', 'g_new_taskinfo'],
             'ensures': DEMAND_ENS,
         },
+        'BuildEngineImpl::finishScanRequest': {
+            'requires': ['__CPROVER_is_fresh(self, sizeof(*self))'] + SCANQ + ['VEC_OK(self->inputRequests, struct BuildEngineImpl_TaskInputRequest)',
+                         '__CPROVER_is_fresh(inputRuleInfo, sizeof(*inputRuleInfo))', 'inputRuleInfo->state == %sIsScanning' % S,
+                         '__CPROVER_is_fresh(inputRuleInfo->inProgressInfo.pendingScanRecord, sizeof(struct BuildEngineImpl_RuleScanRecord))',
+                         'VEC_OK(inputRuleInfo->inProgressInfo.pendingScanRecord->deferredScanRequests, struct BuildEngineImpl_RuleScanRequest)',
+                         'VEC_OK(inputRuleInfo->inProgressInfo.pendingScanRecord->pausedInputRequests, struct BuildEngineImpl_TaskInputRequest)',
+                         'self->ruleInfosToScan.cap - self->ruleInfosToScan.len >= inputRuleInfo->inProgressInfo.pendingScanRecord->deferredScanRequests.len',
+                         'self->inputRequests.cap - self->inputRequests.len >= inputRuleInfo->inProgressInfo.pendingScanRecord->pausedInputRequests.len',
+                         '!self->inputRequestsMutex.held', 'g_k < inputRuleInfo->inProgressInfo.pendingScanRecord->deferredScanRequests.len'],
+            'assigns': ['inputRuleInfo->state', 'inputRuleInfo->inProgressInfo', 'self->ruleInfosToScan.len', '__CPROVER_object_whole(self->ruleInfosToScan.ptr)',
+                        'self->inputRequests.len', '__CPROVER_object_whole(self->inputRequests.ptr)', 'self->inputRequestsMutex.held'],
+            'ensures': [
+                ('P:C01,P:C02', 'inputRuleInfo->state == newState && inputRuleInfo->inProgressInfo.pendingScanRecord == 0'),
+                # every scan request and input request parked on the rule is woken exactly once, in order (ghost index g_k)
+                ('P:C06', 'self->ruleInfosToScan.len == OLD(self->ruleInfosToScan.len) + OLD(inputRuleInfo->inProgressInfo.pendingScanRecord->deferredScanRequests.len)'),
+                ('P:C06', 'self->inputRequests.len == OLD(self->inputRequests.len) + OLD(inputRuleInfo->inProgressInfo.pendingScanRecord->pausedInputRequests.len)'),
+                ('P:C06', 'self->ruleInfosToScan.ptr[OLD(self->ruleInfosToScan.len) + g_k].ruleInfo == OLD(inputRuleInfo->inProgressInfo.pendingScanRecord)->deferredScanRequests.ptr[g_k].ruleInfo && '
+                          'self->ruleInfosToScan.ptr[OLD(self->ruleInfosToScan.len) + g_k].inputIndex == OLD(inputRuleInfo->inProgressInfo.pendingScanRecord)->deferredScanRequests.ptr[g_k].inputIndex'),
+                ('P:C06', '!self->inputRequestsMutex.held'),
+            ],
+            'loops': {
+                0: {'assigns': ['__i1', 'self->ruleInfosToScan.len', '__CPROVER_object_whole(self->ruleInfosToScan.ptr)'],
+                    'invariant': ['__i1 <= __range1->len && self->ruleInfosToScan.len == __CPROVER_loop_entry(self->ruleInfosToScan.len) + __i1',
+                                  'g_k < __i1 ==> (self->ruleInfosToScan.ptr[__CPROVER_loop_entry(self->ruleInfosToScan.len) + g_k].ruleInfo == __range1->ptr[g_k].ruleInfo && '
+                                  'self->ruleInfosToScan.ptr[__CPROVER_loop_entry(self->ruleInfosToScan.len) + g_k].inputIndex == __range1->ptr[g_k].inputIndex)'],
+                    'decreases': '__range1->len - __i1'},
+                1: {'assigns': ['__i2', 'self->inputRequests.len', '__CPROVER_object_whole(self->inputRequests.ptr)'],
+                    'invariant': ['__i2 <= __range2->len && self->inputRequests.len == __CPROVER_loop_entry(self->inputRequests.len) + __i2'],
+                    'decreases': '__range2->len - __i2'},
+            },
+        },
+        **SCANREQ_VARIANTS,
         'BuildEngineImpl::decrementTaskWaitCount': {
             'requires': ['__CPROVER_is_fresh(self, sizeof(*self))'] + READYQ + ['self->readyTaskInfos.len < self->readyTaskInfos.cap',
                          '__CPROVER_is_fresh(taskInfo, sizeof(*taskInfo))', 'taskInfo->waitCount >= 1'],
